@@ -85,6 +85,41 @@ func init() {
 		li.readers--
 		return nil
 	}
+	// sync.Pool: a per-path free list (the most recently returned object is handed out first,
+	// which is what one goroutine observes between garbage collections); empty: New()
+	externals["(*sync.Pool).Get"] = func(fr *frame, a []value) value {
+		i := fr.i
+		p := a[0].(*value)
+		if i.pools == nil {
+			i.pools = map[*value][]value{}
+		}
+		if st := i.pools[p]; len(st) > 0 {
+			v := st[len(st)-1]
+			i.pools[p] = st[:len(st)-1]
+			return v
+		}
+		sv, ok := (*p).(structure)
+		if ok && len(sv) > 0 {
+			if fn := sv[len(sv)-1]; fn != nil {
+				if cl, isNil := fn.(*closure); !(isNil && cl == nil) {
+					return i.call(fr, 0, fn, nil)
+				}
+			}
+		}
+		return iface{}
+	}
+	externals["(*sync.Pool).Put"] = func(fr *frame, a []value) value {
+		i := fr.i
+		p := a[0].(*value)
+		if i.pools == nil {
+			i.pools = map[*value][]value{}
+		}
+		if it, ok := a[1].(iface); ok && it.t == nil {
+			return nil
+		}
+		i.pools[p] = append(i.pools[p], a[1])
+		return nil
+	}
 	externals["(*sync.Mutex).Lock"] = lock
 	externals["(*sync.Mutex).Unlock"] = unlock
 	externals["(*sync.RWMutex).Lock"] = lock
